@@ -60,6 +60,7 @@ type Env struct {
 	limit   *time.Timer
 	cleanup []func()
 	panics  []string
+	internalPanics []string
 }
 
 // OnCleanup registers a function that runs after the workload returned.
